@@ -235,6 +235,8 @@ pub struct ConnState {
     pub last_complete_t: Option<u64>,
     pub pingreq_outstanding: Option<u64>, // completion time of unanswered PINGREQ
     pub pingresp_consumed_for: Option<u64>,
+    /// when the client consumed the most recent PINGRESP
+    pub pingresp_consumed_t: Option<u64>,
     pub broker_disconnect_consumed: bool,
     pub ping_times: Vec<u64>,
     pub last_retained_seq: Option<u64>,
@@ -294,6 +296,7 @@ impl ConnState {
             last_complete_t: None,
             pingreq_outstanding: None,
             pingresp_consumed_for: None,
+            pingresp_consumed_t: None,
             broker_disconnect_consumed: false,
             ping_times: Vec::new(),
             last_retained_seq: None,
